@@ -184,9 +184,9 @@ def gen(repo):
     top = body[1]
     if not isinstance(top, ast.If) or len(top.orelse) != 1 or not isinstance(top.orelse[0], ast.If):
         raise TranslationError('NumericColumn._compare_value: nan/inf/else chain')
-    expect_same(top.test, 'np.isnan(_other)')
+    expect_same(top.test, 'math.isnan(_other)')
     mid = top.orelse[0]
-    expect_same(mid.test, 'np.isinf(_other)')
+    expect_same(mid.test, 'math.isinf(_other)')
     b_nan = eq_branch(top.body, 'nan branch')
     b_inf = eq_branch(mid.body, 'inf branch')
     b_else = eq_branch(mid.orelse, 'else branch')
